@@ -75,6 +75,7 @@ type vectorFile struct {
 	Detail  string            `json:"detail,omitempty"`
 	Obs     []string          `json:"observed,omitempty"`
 	Property string           `json:"property,omitempty"`
+	Stress   bool             `json:"stress,omitempty"`
 }
 
 type nativeResult struct {
@@ -84,7 +85,7 @@ type nativeResult struct {
 }
 
 // buildNative compiles the native replay binary for harness package pkg.
-func buildNative(verifDir, pkg string) (string, error) {
+func buildNative(verifDir, pkg string, race bool) (string, error) {
 	ov, _, err := overlayFiles(verifDir)
 	if err != nil {
 		return "", err
@@ -125,11 +126,19 @@ func buildNative(verifDir, pkg string) (string, error) {
 	if h == nil {
 		t.Fatalf("no harness %q", name)
 	}
+	repeat := 1
+	fmt.Sscan(os.Getenv("GOSYM_REPEAT"), &repeat)
 	for i, f := range files {
-		if err := verif.Load(f); err != nil {
-			t.Fatal(err)
+		var out string
+		for k := 0; k < repeat; k++ {
+			if err := verif.Load(f); err != nil {
+				t.Fatal(err)
+			}
+			out = verif.RunNative(h)
+			if out != "done" || len(verif.Failed) > 0 {
+				break
+			}
 		}
-		out := verif.RunNative(h)
 		r, _ := json.Marshal(map[string]interface{}{"outcome": out, "failed": verif.Failed, "obs": verif.Obs})
 		fmt.Printf("NATIVE-RESULT %d %s\n", i, r)
 	}
@@ -157,7 +166,13 @@ func buildNative(verifDir, pkg string) (string, error) {
 	ovPath := filepath.Join(tmp, "overlay.json")
 	os.WriteFile(ovPath, oj, 0o644)
 	bin := filepath.Join(verifDir, "bin", "native_"+pkg+".test")
-	cmd := exec.Command("go", "test", "-c", "-tags", "verif", "-vet=off", "-overlay", ovPath, "-o", bin, "./internal/zz"+pkg+"/")
+	args := []string{"test", "-c", "-tags", "verif", "-vet=off", "-overlay", ovPath}
+	if race {
+		bin = filepath.Join(verifDir, "bin", "native_"+pkg+"_race.test")
+		args = append(args, "-race")
+	}
+	args = append(args, "-o", bin, "./internal/zz"+pkg+"/")
+	cmd := exec.Command("go", args...)
 	cmd.Dir = repoDir
 	cmd.Env = append(os.Environ(), "GOFLAGS=-mod=mod", "GOPROXY=off")
 	out, err := cmd.CombinedOutput()
@@ -168,7 +183,7 @@ func buildNative(verifDir, pkg string) (string, error) {
 }
 
 // runNative runs the compiled harness on the given vector files.
-func runNative(bin, verifDir, harness string, files []string, timeout time.Duration) ([]nativeResult, string, error) {
+func runNative(bin, verifDir, harness string, files []string, timeout time.Duration, repeat int) ([]nativeResult, string, error) {
 	lf, err := os.CreateTemp(filepath.Join(verifDir, "bin"), "vecs*.json")
 	if err != nil {
 		return nil, "", err
@@ -179,7 +194,7 @@ func runNative(bin, verifDir, harness string, files []string, timeout time.Durat
 	lf.Close()
 	cmd := exec.Command(bin, "-test.run", "^TestZZReplay$", "-test.timeout", fmt.Sprint(timeout))
 	cmd.Dir = verifDir
-	cmd.Env = append(os.Environ(), "GOSYM_VECTORS="+lf.Name(), "GOSYM_HARNESS="+harness)
+	cmd.Env = append(os.Environ(), "GOSYM_VECTORS="+lf.Name(), "GOSYM_HARNESS="+harness, fmt.Sprintf("GOSYM_REPEAT=%d", repeat))
 	out, runErr := cmd.CombinedOutput()
 	res := make([]nativeResult, len(files))
 	got := 0
@@ -281,7 +296,7 @@ func cmdCheck(args []string) {
 	natBins := map[string]string{}
 	if !*noNative {
 		for p := range pkgSet {
-			bin, err := buildNative(*verifDir, p)
+			bin, err := buildNative(*verifDir, p, false)
 			if err != nil {
 				fmt.Fprintf(os.Stderr, "warning: %v\n", err)
 				continue
@@ -387,7 +402,7 @@ func cmdCheck(args []string) {
 				writeVector(f, vectorFile{Harness: s.Name, Pkg: s.Pkg, Vars: pv.Vars, Params: params})
 				files = append(files, f)
 			}
-			res, out, _ := runNative(nat, *verifDir, s.Name, files, 5*time.Minute)
+			res, out, _ := runNative(nat, *verifDir, s.Name, files, 5*time.Minute, 1)
 			for i, r := range res {
 				want := obsStrings(hr.PassVectors[i].Observed)
 				if r.Outcome == "done" && len(r.Failed) == 0 && equalStrings(r.Obs, want) {
@@ -413,7 +428,7 @@ func cmdCheck(args []string) {
 			vars := filterModel(c.Model, c.Choices)
 			h := sha1.Sum([]byte(fmt.Sprint(key, vars)))
 			rp := filepath.Join(*verifDir, "replays", prop, fmt.Sprintf("%s-%x.json", sanitize(key), h[:4]))
-			vf := vectorFile{Harness: s.Name, Pkg: s.Pkg, Vars: vars, Params: params, Expect: key, Kind: c.Kind, Detail: firstLines(c.Detail, 3), Obs: obsStrings(c.Observed), Property: prop}
+			vf := vectorFile{Harness: s.Name, Pkg: s.Pkg, Vars: vars, Params: params, Expect: key, Kind: c.Kind, Detail: firstLines(c.Detail, 3), Obs: obsStrings(c.Observed), Property: prop, Stress: s.Schedule}
 			confirmed := false
 			why := ""
 			if s.NoNative || nat == "" {
@@ -421,9 +436,22 @@ func cmdCheck(args []string) {
 			} else {
 				tmpf := filepath.Join(*verifDir, "bin", fmt.Sprintf("cex-%x.json", h[:6]))
 				writeVector(tmpf, vf)
-				res, _, _ := runNative(nat, *verifDir, s.Name, []string{tmpf}, 2*time.Minute)
+				rep := 1
+				if s.Schedule {
+					rep = 300 // schedule-dependent: stress the native build
+				}
+				natBin := nat
+				if c.Kind == "race" {
+					if rb, err := buildNative(*verifDir, s.Pkg, true); err == nil {
+						natBin = rb
+					}
+				}
+				res, nout, _ := runNative(natBin, *verifDir, s.Name, []string{tmpf}, 4*time.Minute, rep)
 				os.Remove(tmpf)
 				r := res[0]
+				if c.Kind == "race" && strings.Contains(nout, "DATA RACE") {
+					confirmed = true
+				}
 				switch c.Kind {
 				case "assert":
 					for _, f := range r.Failed {
@@ -575,11 +603,15 @@ func doReplay(verifDir, prop, path string) int {
 	if err := json.Unmarshal(b, &vf); err != nil {
 		fatalf("%v", err)
 	}
-	bin, err := buildNative(verifDir, vf.Pkg)
+	bin, err := buildNative(verifDir, vf.Pkg, vf.Kind == "race")
 	if err != nil {
 		fatalf("%v", err)
 	}
-	res, out, _ := runNative(bin, verifDir, vf.Harness, []string{path}, 2*time.Minute)
+	rep := 1
+	if vf.Kind == "race" || vf.Stress {
+		rep = 300
+	}
+	res, out, _ := runNative(bin, verifDir, vf.Harness, []string{path}, 4*time.Minute, rep)
 	r := res[0]
 	fmt.Printf("native replay of %s: outcome=%q failed=%v obs=%v\n", path, r.Outcome, r.Failed, r.Obs)
 	reproduced := false
@@ -592,6 +624,8 @@ func doReplay(verifDir, prop, path string) int {
 		}
 	case "panic":
 		reproduced = strings.HasPrefix(r.Outcome, "panic")
+	case "race":
+		reproduced = strings.Contains(out, "DATA RACE")
 	default:
 		reproduced = r.Outcome == "process-died"
 	}
